@@ -6,6 +6,7 @@ import (
 	"fmt"
 	"os"
 	"os/exec"
+	"strings"
 	"time"
 )
 
@@ -40,7 +41,12 @@ func RunSelfChild(timeout time.Duration, env []string, args ...string) (stdout, 
 // stderr tail unless the stderr shows a Go panic, which is reported as a
 // violation (the library crashed the process).
 func (r *Run) RunVariantChild(variant string, timeout time.Duration, countNT bool) {
-	so, se, code, timedOut, err := RunSelfChild(timeout, []string{fmt.Sprintf("VERIF_SEED=%d", r.Seed), "VERIF_TIER=" + r.Tier}, r.Prop, variant)
+	env := []string{fmt.Sprintf("VERIF_SEED=%d", r.Seed), "VERIF_TIER=" + r.Tier}
+	// "<prelude>@<n>" runs the child with GOMAXPROCS=n (first use under another degree of parallelism)
+	if i := strings.LastIndex(variant, "@"); i >= 0 {
+		env = append(env, "GOMAXPROCS="+variant[i+1:])
+	}
+	so, se, code, timedOut, err := RunSelfChild(timeout, env, r.Prop, variant)
 	if err != nil {
 		r.Inconclusive(fmt.Sprintf("variant %s: cannot run child: %v", variant, err))
 		return
